@@ -235,9 +235,15 @@ impl Check for C13 {
             Err(e) => {
                 let msg = e.to_string();
                 ctx.observe_str(&msg);
-                let want = format!("Parse error (line {}): ", line);
-                if !msg.starts_with(&want) {
-                    ctx.violation("wrong-line", format!("fault {:?} is on line {} but the error says {:?} — text {:?}", f, line, msg, text));
+                // the line is read from the error value; the rendered message must name the same line
+                let loc_line = match &e.loc {
+                    rrss::frontend::parser::ParseErrorLocation::Token(t) => t.range.start().line,
+                    rrss::frontend::parser::ParseErrorLocation::Line(n) => *n,
+                };
+                let said = format!("line {}", line);
+                let names_line = msg.to_lowercase().match_indices(&said).any(|(i, _)| !msg[i + said.len()..].starts_with(|c: char| c.is_ascii_digit()));
+                if loc_line != line || !names_line {
+                    ctx.violation("wrong-line", format!("fault {:?} is on line {} but the error is located on line {} and says {:?} — text {:?}", f, line, loc_line, msg, crate::engine::orch::middle_out(&text, 60, 200)));
                 }
                 let code = msg.splitn(2, "): ").nth(1).unwrap_or("").split(|c: char| c == '`' || c == ',').next().unwrap_or("").trim().to_string();
                 ctx.cover("error_kinds", &code);
